@@ -6,3 +6,4 @@ import ThriftVerif.Props.C14
 #print axioms Props.C14.no_panic_partial
 #print axioms Props.C14.no_panic_repaired
 #print axioms Props.C14.getpath_terminates_partial
+#print axioms Props.C14.getpath_terminates_repaired
